@@ -22,8 +22,8 @@ const rule = "topologies of 3-10 ASes (1-3 ISDs; core, parent-child, peering and
 func main() {
 	netgen.Main("C02", "Prov.check02", rule, func(x *netgen.Ctx) {
 		run := x.Run
-		nWorlds := run.Count(14, 400)
-		perWorld := 14
+		nWorlds := run.Count(10, 400)
+		perWorld := 12
 		if run.Tier == "thorough" {
 			perWorld = 40
 		}
@@ -94,6 +94,10 @@ func main() {
 				len(p.Slices) >= 2 || p.Shortcut || p.Peering, desc)
 			if s.Walk.Panic != "" {
 				run.Violate(id, "router panicked: "+s.Walk.Panic, desc)
+			}
+			if valid && !s.Walk.Delivered() {
+				run.Violate(id, "a path built from beaconed segments was not delivered: "+s.Walk.Final.Kind+" "+
+					s.Walk.Final.StopDesc, desc)
 			}
 		})
 	})
